@@ -8,37 +8,37 @@ Local Open Scope R_scope.
 
 Theorem C23_rt_pk2_cauchy_full : forall a b : nat -> R,
   (det2 (full_t 3%nat b) <> 0 -> rt_pk2_cauchy_3 a b = flat_s 3%nat (spec_rt_pk2_cauchy 3%nat (full_s 3%nat a) (full_t 3%nat b))).
-Proof. intros; exact rt_pk2_cauchy_3_ok a b. Qed.
+Proof. intros; exact (rt_pk2_cauchy_3_ok a b). Qed.
 Print Assumptions C23_rt_pk2_cauchy_full.
 
 Theorem C23_SPATIAL_MODULI_from_DS_DEGL_full : forall a b c d : nat -> R,
   (SPATIAL_MODULI_from_DS_DEGL_3 a b c d = flat_A 3%nat (spec_SPATIAL_MODULI_from_DS_DEGL 3%nat (full_A 3%nat a) (full_t 3%nat b) (full_t 3%nat c) (full_s 3%nat d))).
-Proof. intros; exact SPATIAL_MODULI_from_DS_DEGL_3_ok a b c d. Qed.
+Proof. intros; exact (SPATIAL_MODULI_from_DS_DEGL_3_ok a b c d). Qed.
 Print Assumptions C23_SPATIAL_MODULI_from_DS_DEGL_full.
 
 Theorem C23_C_TRUESDELL_from_DS_DEGL_full : forall a b c d : nat -> R,
   (det2 (full_t 3%nat c) <> 0 -> C_TRUESDELL_from_DS_DEGL_3 a b c d = flat_A 3%nat (spec_C_TRUESDELL_from_DS_DEGL 3%nat (full_A 3%nat a) (full_t 3%nat b) (full_t 3%nat c) (full_s 3%nat d))).
-Proof. intros; exact C_TRUESDELL_from_DS_DEGL_3_ok a b c d. Qed.
+Proof. intros; exact (C_TRUESDELL_from_DS_DEGL_3_ok a b c d). Qed.
 Print Assumptions C23_C_TRUESDELL_from_DS_DEGL_full.
 
 Theorem C23_DSIG_DF_from_DSIG_DDF_full : forall a b c d : nat -> R,
   (det2 (full_t 3%nat b) <> 0 -> DSIG_DF_from_DSIG_DDF_3 a b c d = flat_C 3%nat (spec_DSIG_DF_from_DSIG_DDF 3%nat (full_C 3%nat a) (full_t 3%nat b) (full_t 3%nat c) (full_s 3%nat d))).
-Proof. intros; exact DSIG_DF_from_DSIG_DDF_3_ok a b c d. Qed.
+Proof. intros; exact (DSIG_DF_from_DSIG_DDF_3_ok a b c d). Qed.
 Print Assumptions C23_DSIG_DF_from_DSIG_DDF_full.
 
 Theorem C23_DTAU_DF_from_DTAU_DDF_full : forall a b c d : nat -> R,
   (det2 (full_t 3%nat b) <> 0 -> DTAU_DF_from_DTAU_DDF_3 a b c d = flat_C 3%nat (spec_DTAU_DF_from_DTAU_DDF 3%nat (full_C 3%nat a) (full_t 3%nat b) (full_t 3%nat c) (full_s 3%nat d))).
-Proof. intros; exact DTAU_DF_from_DTAU_DDF_3_ok a b c d. Qed.
+Proof. intros; exact (DTAU_DF_from_DTAU_DDF_3_ok a b c d). Qed.
 Print Assumptions C23_DTAU_DF_from_DTAU_DDF_full.
 
 Theorem C23_DSIG_DF_from_DTAU_DF_full : forall a b c d : nat -> R,
   (det2 (full_t 3%nat c) <> 0 -> DSIG_DF_from_DTAU_DF_3 a b c d = flat_C 3%nat (spec_DSIG_DF_from_DTAU_DF 3%nat (full_C 3%nat a) (full_t 3%nat b) (full_t 3%nat c) (full_s 3%nat d))).
-Proof. intros; exact DSIG_DF_from_DTAU_DF_3_ok a b c d. Qed.
+Proof. intros; exact (DSIG_DF_from_DTAU_DF_3_ok a b c d). Qed.
 Print Assumptions C23_DSIG_DF_from_DTAU_DF_full.
 
 Theorem C23_ABAQUS_from_DS_DEGL_full : forall a b c d : nat -> R,
   (det2 (full_t 3%nat c) <> 0 -> ABAQUS_from_DS_DEGL_3 a b c d = flat_A 3%nat (spec_ABAQUS_from_DS_DEGL 3%nat (full_A 3%nat a) (full_t 3%nat b) (full_t 3%nat c) (full_s 3%nat d))).
-Proof. intros; exact ABAQUS_from_DS_DEGL_3_ok a b c d. Qed.
+Proof. intros; exact (ABAQUS_from_DS_DEGL_3_ok a b c d). Qed.
 Print Assumptions C23_ABAQUS_from_DS_DEGL_full.
 
 Theorem C23_DS_DEGL_from_SPATIAL_MODULI_full : forall a b c d : nat -> R,
@@ -127,25 +127,25 @@ Print Assumptions C23_DPK1_DF_from_DS_DEGL_full.
 
 Theorem C23_rt_DSIG_DF_DSIG_DDF_full : forall a b c d : nat -> R,
   (det2 (full_t 3%nat b) <> 0 -> rt_DSIG_DF_DSIG_DDF_3 a b c d = flat_C 3%nat (spec_rt_DSIG_DF_DSIG_DDF 3%nat (full_C 3%nat a) (full_t 3%nat b) (full_t 3%nat c) (full_s 3%nat d))).
-Proof. intros; exact rt_DSIG_DF_DSIG_DDF_3_ok a b c d. Qed.
+Proof. intros; exact (rt_DSIG_DF_DSIG_DDF_3_ok a b c d). Qed.
 Print Assumptions C23_rt_DSIG_DF_DSIG_DDF_full.
 
 Theorem C23_rt_DTAU_DF_DTAU_DDF_full : forall a b c d : nat -> R,
   (det2 (full_t 3%nat b) <> 0 -> rt_DTAU_DF_DTAU_DDF_3 a b c d = flat_C 3%nat (spec_rt_DTAU_DF_DTAU_DDF 3%nat (full_C 3%nat a) (full_t 3%nat b) (full_t 3%nat c) (full_s 3%nat d))).
-Proof. intros; exact rt_DTAU_DF_DTAU_DDF_3_ok a b c d. Qed.
+Proof. intros; exact (rt_DTAU_DF_DTAU_DDF_3_ok a b c d). Qed.
 Print Assumptions C23_rt_DTAU_DF_DTAU_DDF_full.
 
 Theorem C23_rt_DS_DEGL_SPATIAL_MODULI_full : forall a b c d : nat -> R,
   (det2 (full_t 3%nat c) <> 0 -> rt_DS_DEGL_SPATIAL_MODULI_3 a b c d = flat_A 3%nat (spec_rt_DS_DEGL_SPATIAL_MODULI 3%nat (full_A 3%nat a) (full_t 3%nat b) (full_t 3%nat c) (full_s 3%nat d))).
-Proof. intros; exact rt_DS_DEGL_SPATIAL_MODULI_3_ok a b c d. Qed.
+Proof. intros; exact (rt_DS_DEGL_SPATIAL_MODULI_3_ok a b c d). Qed.
 Print Assumptions C23_rt_DS_DEGL_SPATIAL_MODULI_full.
 
 Theorem C23_rt_C_TAU_JAUMANN_DTAU_DF_full : forall a b c d : nat -> R,
   (det2 (full_t 3%nat c) <> 0 -> rt_C_TAU_JAUMANN_DTAU_DF_3 a b c d = flat_A 3%nat (spec_rt_C_TAU_JAUMANN_DTAU_DF 3%nat (full_A 3%nat a) (full_t 3%nat b) (full_t 3%nat c) (full_s 3%nat d))).
-Proof. intros; exact rt_C_TAU_JAUMANN_DTAU_DF_3_ok a b c d. Qed.
+Proof. intros; exact (rt_C_TAU_JAUMANN_DTAU_DF_3_ok a b c d). Qed.
 Print Assumptions C23_rt_C_TAU_JAUMANN_DTAU_DF_full.
 
 Theorem C23_rt_SPATIAL_MODULI_DTAU_DF_full : forall a b c d : nat -> R,
   (det2 (full_t 3%nat c) <> 0 -> rt_SPATIAL_MODULI_DTAU_DF_3 a b c d = flat_A 3%nat (spec_rt_SPATIAL_MODULI_DTAU_DF 3%nat (full_A 3%nat a) (full_t 3%nat b) (full_t 3%nat c) (full_s 3%nat d))).
-Proof. intros; exact rt_SPATIAL_MODULI_DTAU_DF_3_ok a b c d. Qed.
+Proof. intros; exact (rt_SPATIAL_MODULI_DTAU_DF_3_ok a b c d). Qed.
 Print Assumptions C23_rt_SPATIAL_MODULI_DTAU_DF_full.
